@@ -59,6 +59,9 @@ func (s *scanner) Scan(value bytes.Bytes) (*Number, error) {
 	return &n, nil
 }
 
+// maxExp the biggest absolute value of the exponent we are ready to process.
+const maxExp = 100000
+
 func (s *scanner) setExp(value bytes.Bytes) error {
 	if s.expBegin == 0 {
 		return nil
@@ -67,6 +70,12 @@ func (s *scanner) setExp(value bytes.Bytes) error {
 	exp, err := value.SubLow(s.expBegin).ParseInt()
 	if err != nil {
 		return err
+	}
+	// The number is expanded to the plain decimal notation, so the amount of
+	// memory and time needed grows with the exponent. Refuse exponents that
+	// make no practical sense instead of trying to allocate the digits.
+	if exp > maxExp || exp < -maxExp {
+		return errs.ErrIncorrectExponentValue.F()
 	}
 	// example with negative exp: 12.34E-1 = 1.234; exp = -1; intLen = 2 + (-1) = 1
 	// example with positive exp: 12.34E+1 = 123.4; exp =  1; intLen = 2 + 1    = 3
